@@ -18,7 +18,8 @@ ASSUMPTIONS = [
 ]
 
 LOCAL = [0, 1, 2, 3]
-FOREIGN = 9
+FOREIGN = 9        # module of another project whose index (1) also exists in the local project
+FOREIGN_FAR = 8    # module of another project whose index (6) is beyond the local project's module list
 
 
 # ------------------------------------------------------------------ alphabet
@@ -81,6 +82,12 @@ def alphabet_A6():
     for x in LOCAL:
         ops.append({"op": "rshift", "l": x, "r": FOREIGN})
         ops.append({"op": "lshift", "l": x, "r": FOREIGN})
+        for far in (FOREIGN_FAR,):
+            ops.append({"op": "connect", "f": x, "t": far})
+            ops.append({"op": "connect", "f": far, "t": x})
+            ops.append({"op": "connect", "f": x, "t": _neg(far)})
+            ops.append({"op": "connect", "f": [x, far], "t": x})
+            ops.append({"op": "rshift", "l": x, "r": far})
     return ops
 
 
@@ -104,6 +111,19 @@ def alphabet_A5():
                             "equiv": [{"op": "connect", "f": z, "t": [x, y]}]})
                 ops.append({"op": "rshift", "l": [x, _neg(y)], "r": z,
                             "equiv": [{"op": "connect", "f": [x, _neg(y)], "t": z}]})
+                # a LIST on both sides of the operator (the left one is a ModuleList), also as second hop of a chain
+                for w in LOCAL:
+                    if (x + y + z + w) % 2:      # half of the 256 combinations per form (the other half mirrors them)
+                        continue
+                    ops.append({"op": "rshift", "l": [x, y], "r": [z, w],
+                                "equiv": [{"op": "connect", "f": [x, y], "t": [z, w]}]})
+                    ops.append({"op": "lshift", "l": [x, y], "r": [z, w],
+                                "equiv": [{"op": "connect", "f": [z, w], "t": [x, y]}]})
+                    ops.append({"op": "lshift", "l": [x, y], "r": [_neg(z), w],
+                                "equiv": [{"op": "connect", "f": [_neg(z), w], "t": [x, y]}]})
+                    ops.append({"op": "chain", "dir": "<<", "seq": [x, [y, z], [w, x]],
+                                "equiv": [{"op": "connect", "f": [y, z], "t": x},
+                                          {"op": "connect", "f": [w, x], "t": [y, z]}]})
                 # chains: x >> [y, z] >> x   and   x >> y >> z   and  x << y << z
                 ops.append({"op": "chain", "dir": ">>", "seq": [x, [y, z], x],
                             "equiv": [{"op": "connect", "f": x, "t": [y, z]},
@@ -119,7 +139,7 @@ def alphabet_A5():
 
 # ------------------------------------------------------------------ the system
 class Live:
-    __slots__ = ("p", "mods", "p2", "f", "saved")
+    __slots__ = ("p", "mods", "p2", "f", "saved", "local_of")
 
 
 def requested_pairs(op):
@@ -143,8 +163,10 @@ def requested_pairs(op):
 
 
 class LinkSystem:
-    def __init__(self, ops):
+    def __init__(self, ops, holes=(0, 0, 0)):
         self.ops = ops
+        self.holes = tuple(holes)
+        self.case_extra = {"holes": list(self.holes)} if any(self.holes) else {}      # empty module slots in front of local module 1, 2, 3 (module numbers then differ from local ids)
 
     # --- implementation side
     def fresh(self):
@@ -152,13 +174,22 @@ class LinkSystem:
 
         L = Live()
         L.p = rv.Project()
-        a = L.p.new_module(rv.m.Amplifier)
-        b = L.p.new_module(rv.m.Amplifier)
-        c = L.p.new_module(rv.m.Amplifier)
+        made = []
+        for h in self.holes:
+            for _ in range(h):
+                L.p.attach_module(None)
+            # new_module would fill the first empty slot; `loading=True` appends (how a file with empty slots is rebuilt)
+            made.append(L.p.attach_module(rv.m.Amplifier(), loading=True) if any(self.holes)
+                        else L.p.new_module(rv.m.Amplifier))
+        a, b, c = made
         L.mods = {0: L.p.output, 1: a, 2: b, 3: c}
+        L.local_of = {L.mods[i].index: i for i in LOCAL}
         L.p2 = rv.Project()
         L.f = L.p2.new_module(rv.m.Amplifier)
         L.mods[FOREIGN] = L.f
+        for _ in range(4):
+            L.p2.new_module(rv.m.Amplifier)
+        L.mods[FOREIGN_FAR] = L.p2.new_module(rv.m.Amplifier)      # index 6 >= len(local modules) == 4
         L.saved = 0
         return L
 
@@ -195,6 +226,9 @@ class LinkSystem:
                 raise ValueError(kind)
         except ModuleOwnershipError:
             return "raise:ModuleOwnershipError"
+        except (IndexError, KeyError, AttributeError, TypeError, ValueError) as e:
+            # the refusal has a defined error type; anything else is an observable outcome, not a harness failure
+            return "raise:" + type(e).__name__
         return "ok"
 
     def tables(self, L):
@@ -265,6 +299,7 @@ class LinkSystem:
                        "detail": {"expected": expected, "observed": outcome}})
             return vs
         e_in, e_out = edge_sets(L.p)
+        e_in = {(L.local_of.get(a, ("?", a)), L.local_of.get(b, ("?", b))) for a, b in e_in}
         if outcome == "ok":
             if e_in != m.edges:
                 vs.append({"subcheck": "edge-set", "key": {"op": opk},
@@ -291,7 +326,7 @@ def op_pattern(op):
             return "~m"
         if isinstance(o, list):
             return "[" + ",".join(shape(x) for x in o) + "]"
-        return "F" if o == FOREIGN else "m"
+        return "F" if o == FOREIGN else "Ffar" if o == FOREIGN_FAR else "m"
     k = op["op"]
     if k == "save":
         return "save"
@@ -414,7 +449,7 @@ def _sugar_chunk(args):
 def run_case(case):
     """Replay one history on fresh objects; oracles evaluated after every step."""
     hist = case["history"]
-    sysm = LinkSystem(hist)
+    sysm = LinkSystem(hist, case.get("holes", (0, 0, 0)))
     L = sysm.fresh()
     m = sysm.model_fresh()
     vs = sysm.invariant(L)
@@ -426,7 +461,7 @@ def run_case(case):
         exp = sysm.model_apply(m, op)
         step = sysm.compare(L, m, op, outcome, exp) + sysm.invariant(L)
         for v in step:
-            v["case"] = {"history": hist[: i + 1]}
+            v["case"] = dict(sysm.case_extra, history=hist[: i + 1])
         vs += step
         if step:
             break
@@ -450,6 +485,13 @@ def run(ctx):
     r2 = explorer.bfs(ctx, sys2, d2, op_indices=rotate(range(len(full)), ctx.seed),
                       chunk=8 if d2 >= 3 else 4)
     ctx.add(r2.violations)
+    # module numbers that differ from creation order: empty slots in front of the local modules
+    r3s = []
+    for holes in ((2, 1, 0), (0, 0, 3)):
+        r3 = explorer.bfs(ctx, LinkSystem(A1, holes), 4 if ctx.thorough else 3,
+                          op_indices=rotate(range(len(A1)), ctx.seed), chunk=128)
+        ctx.add(r3.violations)
+        r3s.append(r3)
     # sugar differential from every A1 state of depth <= 2
     sugar = alphabet_A5()
     base = [h for fr in r1.frontiers[:3] for h in fr]
@@ -464,10 +506,12 @@ def run(ctx):
         distinct_outcomes[k] = distinct_outcomes.get(k, 0) + v
     dead_ops = [op_pattern(full[i]) for i in range(len(full)) if i not in r2.op_changed and i < len(A1)]
     return {
-        "states": r1.states + r2.states,
-        "transitions": r1.transitions + r2.transitions + n_sugar,
-        "traces_validated_against_impl": r1.transitions + r2.transitions + n_sugar,
-        "exhaustive": not (r1.capped or r2.capped),
+        "states": r1.states + r2.states + sum(r.states for r in r3s),
+        "transitions": r1.transitions + r2.transitions + n_sugar + sum(r.transitions for r in r3s),
+        "traces_validated_against_impl": r1.transitions + r2.transitions + n_sugar + sum(r.transitions for r in r3s),
+        "exhaustive": not (r1.capped or r2.capped or any(r.capped for r in r3s)),
+        "layouts_with_empty_slots": [{"holes": list(h), "depth_completed": r.depth_completed, "states": r.states}
+                                     for h, r in zip(((2, 1, 0), (0, 0, 3)), r3s)],
         "A1": {"ops": len(A1), "depth_completed": r1.depth_completed, "states": r1.states,
                "transitions": r1.transitions, "states_per_level": r1.levels,
                "new_states_replay_verified": r1.replay_verified},
